@@ -22,7 +22,7 @@ def feat(rng):
         return RG.Feat(operands=0.55, ocaps=0.45, icaps=0.15, times_item=0.45, groups=0.25, nots=0.2, ogroups=0.2, group_times=0.4, hexh=0.3, deref=0.6,
                        max_depth=1, max_spine=rng.choice([3, 4, 5, 6]))
     if r < 0.45:   # operand captures
-        return RG.Feat(operands=0.9, ocaps=0.6, groups=0.15, nots=0.1, ogroups=0.15, times_item=0.1, group_times=0.2, hexh=0.15,
+        return RG.Feat(operands=0.9, ocaps=0.6, groups=0.15, nots=0.1, ogroups=0.15, times_item=0.1, group_times=0.2, hexh=0.15, excess_ops=0.2,
                        max_depth=1, max_spine=rng.choice([2, 3, 4, 6]))
     if r < 0.62:   # instruction captures
         return RG.Feat(operands=0.5, icaps=0.5, groups=0.15, nots=0.1, max_depth=1, max_spine=rng.choice([2, 3, 4, 5]))
